@@ -91,6 +91,8 @@ pub fn bodies() -> Vec<String> {
         "<html><body><div>a</div></body></html>".into(),
         "".into(),
         "no markup, only text with ü and 漢".into(),
+        // > 64 KiB of plain text in few compressed bytes: one compressed chunk inflates past the codecs' internal buffers
+        "<html><body><div>big</div>".to_string() + &"<p>0123456789 répétition abcdefghijklmnopqrstuvwxyz</p>".repeat(1400) + "</body></html>",
     ]
 }
 
@@ -218,7 +220,10 @@ pub fn replay(case: &Value) -> Vec<String> {
         return vec![];
     }
     let want = single_chunk(case.body.as_bytes(), &case.filters, &[]);
-    check_schedule(&case, &stream, &want).into_iter().map(|(s, _)| s).collect()
+    match crate::common::guarded(|| check_schedule(&case, &stream, &want)) {
+        Ok(r) => r.into_iter().map(|(s, _)| s).collect(),
+        Err((loc, _)) => vec![format!("panic:{loc}")],
+    }
 }
 
 /// unsupported / composite encodings: no filter is created and the body passes through untouched
@@ -256,6 +261,28 @@ pub fn schedules(n: usize, tier: Tier) -> Vec<Vec<usize>> {
     let mut v: Vec<Vec<usize>> = vec![vec![n]];
     if n == 0 {
         v.push(vec![0, 0]);
+        return v;
+    }
+    if n > 1500 {
+        // long streams (the big body, or stored / level-0 producers): a lattice of cuts and strides
+        let step = (n / tier.pick(12, 48)).max(1);
+        for p in (1..n).step_by(step) {
+            v.push(vec![p, n - p]);
+            v.push(vec![p, 0, n - p]);
+        }
+        let strides: Vec<usize> = tier.pick(vec![n / 2 + 1, 8192, 257], vec![n / 2 + 1, n / 3, n / 7, 8192, 4096, 1024, 257, 64]);
+        for s in strides {
+            if s == 0 || s >= n {
+                continue;
+            }
+            let mut sched = vec![s; n / s];
+            if n % s != 0 {
+                sched.push(n % s);
+            }
+            v.push(sched);
+        }
+        let third = n / 3;
+        v.push(vec![third, third, n - 2 * third]);
         return v;
     }
     // one cut, plus an empty chunk before / after it and at both ends
@@ -301,7 +328,11 @@ pub fn run(tier: Tier) -> i32 {
     let mut work: Vec<(String, Enc, String, &'static str, Vec<FilterSpec>)> = Vec::new();
     for b in bodies() {
         for enc in encodings(tier) {
-            for (fname, f) in filter_lists() {
+            for (fi, (fname, f)) in filter_lists().into_iter().enumerate() {
+                // the big body only with one representative producer per codec and the first filter list
+                if b.len() > 30000 && (fi > 0 || !matches!(enc, Enc::Gzip(6) | Enc::Zlib(1) | Enc::Brotli(5, 22))) {
+                    continue;
+                }
                 let hv = if work.len() % 5 == 0 { enc.header().to_uppercase() } else { enc.header().to_string() };
                 work.push((b.clone(), enc.clone(), hv, fname, f));
             }
@@ -329,7 +360,11 @@ pub fn run(tier: Tier) -> i32 {
         for sched in schedules(stream.len(), tier) {
             let case = Case { body: body.clone(), enc: enc.clone(), header_value: hv.clone(), filters: filters.clone(), schedule: sched };
             runs.fetch_add(1, Ordering::Relaxed);
-            if let Some((sig, what)) = check_schedule(&case, &stream, &want) {
+            let res = match crate::common::guarded(|| check_schedule(&case, &stream, &want)) {
+                Ok(r) => r,
+                Err((loc, msg)) => Some((format!("panic:{loc}"), format!("panicked at {loc}: {msg}; producer {:?} schedule {:?}", case.enc, case.schedule))),
+            };
+            if let Some((sig, what)) = res {
                 ctx.report(Violation {
                     signature: sig,
                     what: format!("filters {fname}: {what}"),
